@@ -149,8 +149,26 @@ let dec () =
     done
   with End_of_file -> ()
 
+(* the emitter calls the model's serialization performs for one node of every kind (one-shot setters left out) *)
+let dispatch () =
+  let z = cz_of_int 0 in
+  let name = function
+    | Builder.CEmit _ -> "Emit" | Builder.CBind _ -> "Bind" | Builder.CAlign _ -> "Align" | Builder.CEmbedArray _ -> "EmbedArray" | Builder.CEmbed _ -> "Embed"
+    | Builder.CEmbedLabel _ -> "EmbedLabel" | Builder.CEmbedDelta _ -> "EmbedDelta" | Builder.CConstPool _ -> "ConstPool" | Builder.CComment _ -> "Comment"
+    | Builder.CSection _ -> "Section" | Builder.CSetComment _ | Builder.CSetOptions _ | Builder.CSetExtra _ -> "" | _ -> "Other" in
+  let kinds = [
+    "inst", Builder.NInst (z, z, z, z, nat_of_int 0, []); "section", Builder.NSection z; "label", Builder.NLabel z; "align", Builder.NAlign (z, z);
+    "data", Builder.NData (z, z, z, z, []); "embedlabel", Builder.NEmbedLabel (z, z); "embeddelta", Builder.NEmbedDelta (z, z, z); "comment", Builder.NComment;
+    "constpool", Builder.NConstPool (z, z, []); "sentinel", Builder.NSentinel z; "func", Builder.NFunc (z, z); "funcend", Builder.NFuncEnd z;
+    "funcret", Builder.NFuncRet; "jump", Builder.NJump (z, z, z, z, op_none, z); "invoke", Builder.NInvoke (z, z, z, z, op_none) ] in
+  List.iter (fun (nm, k) ->
+    let cs = Builder.replay_node { Builder.n_kind = k; n_comment = None } in
+    let first_setter = (match cs with Builder.CSetComment _ :: _ -> "1" | _ -> "0") in
+    Printf.printf "DISPATCH %s %s %s\n" nm first_setter (String.concat "," (List.filter (fun s -> s <> "") (List.map name cs)))) kinds
+
 let () =
   let verbose = Array.exists (fun s -> s = "-v") Sys.argv in
+  if Array.exists (fun s -> s = "-dispatch") Sys.argv then (dispatch (); exit 0);
   if Array.exists (fun s -> s = "-dec") Sys.argv then (dec (); exit 0);
   if Array.exists (fun s -> s = "-consts") Sys.argv then (consts (); exit 0);
   if Array.exists (fun s -> s = "-opcount") Sys.argv then (opcount (); exit 0);
